@@ -231,7 +231,8 @@ int main(void)
 			if (!set_family(fam)) { printf("skip\n"); continue; }
 			set_mode(mode);
 			bufs_alloc(nd + np, size);
-			zero = calloc(1, size + 64);
+			if (posix_memalign((void **)&zero, 256, size + 64)) exit(3);
+			memset(zero, 0, size + 64);
 			raid_zero(zero);
 			for (b = 0; b < nd + np; ++b) unhex(hex + 2 * (size_t)b * size, vbuf[b], size);
 			if (sigsetjmp(jb, 1) == 0) {
@@ -274,7 +275,7 @@ int main(void)
 			int n = atoi(strtok_r(0, " \n", &save));
 			int c[16]; unsigned long count = 0, sum = 0;
 			combination_first(r, n, c);
-			do { ++count; for (i = 0; i < r; ++i) sum = sum * 31 + c[i] + 1; sum %= 1000000007UL; } while (combination_next(r, n, c));
+			do { ++count; for (i = 0; i < r; ++i) sum = (sum * 31 + c[i] + 1) % 1000000007UL; } while (combination_next(r, n, c));
 			printf("ok %lu %lu\n", count, sum);
 		} else printf("unknown\n");
 		fflush(stdout);
